@@ -202,6 +202,62 @@ example : ∃ g, fromEdgeArray ltInt (some id) [(0, 3), (3, 0), (0, 3)] none { s
     g.matrix.nRow = 4 ∧ g.matrix.entry 0 3 = 3 ∧ g.matrix.entry 1 2 = 0 := by
   refine ⟨_, rfl, ?_, ?_, ?_⟩ <;> decide +kernel
 
+/-- **smallest compatible shape.** Without `shape` and without reindexing the dimensions are the largest listed
+    identifier plus one (rows: sources, columns: targets when bipartite; all nodes otherwise). -/
+theorem edge_array_shape_minimal (rows : List (Int × Int)) (weights : Option (List Rat)) (f : Flags) (g : Graph Int)
+    (hr : f.reindex = false) (hs : f.shape = none)
+    (h : fromEdgeArray ltInt (some id) rows weights f = .ok g) :
+    (f.bipartite = true → (∃ e ∈ rows, e.1.toNat + 1 = g.matrix.nRow) ∧ (∃ e ∈ rows, e.2.toNat + 1 = g.matrix.nCol)) ∧
+    (f.bipartite = false → g.matrix.nCol = g.matrix.nRow ∧
+      ∃ e ∈ rows, e.1.toNat + 1 = g.matrix.nRow ∨ e.2.toNat + 1 = g.matrix.nRow) := by
+  unfold fromEdgeArray fromEdgeArrayWith at h
+  simp only at h
+  split at h
+  · cases h
+  · rename_i hlen
+    have hlen' : (weights.getD (List.replicate rows.length 1)).length = rows.length := by
+      simpa using hlen
+    have hkeys := keys_typedEdges ltInt rows _ f hlen'
+    by_cases hb : f.bipartite = true
+    · simp only [hb, if_true, hr, hs, Option.map_none] at h
+      split at h
+      · cases h
+      · rename_i ar har
+        split at h
+        · cases h
+        · rename_i ac hac
+          cases h
+          refine ⟨fun _ => ?_, fun hbf => by rw [hb] at hbf; cases hbf⟩
+          obtain ⟨x, hx, hxn⟩ := axisOf_int_minimal _ _ _ _ har
+          obtain ⟨y, hy, hyn⟩ := axisOf_int_minimal _ _ _ _ hac
+          obtain ⟨e1, he1, rfl⟩ := List.mem_map.mp hx
+          obtain ⟨e2, he2, rfl⟩ := List.mem_map.mp hy
+          exact ⟨⟨e1.1, (hkeys _).mp (List.mem_map.mpr ⟨e1, he1, rfl⟩), by simpa [bipMatrix] using hxn⟩,
+                 ⟨e2.1, (hkeys _).mp (List.mem_map.mpr ⟨e2, he2, rfl⟩), by simpa [bipMatrix] using hyn⟩⟩
+    · have hb' : f.bipartite = false := by simpa using hb
+      simp only [hb', Bool.false_eq_true, if_false, hr, hs, Option.map_none] at h
+      split at h
+      · cases h
+      · rename_i ax hax
+        cases h
+        refine ⟨fun hbt => (by rw [hb'] at hbt; cases hbt), fun _ => ?_⟩
+        have hN : (sqMatrix f.weighted f.directed (weightKind f.weighted
+            (weights.getD (List.replicate rows.length 1))) (typedEdges ltInt rows
+            (weights.getD (List.replicate rows.length 1)) f) ax).nRow = ax.n ∧
+            (sqMatrix f.weighted f.directed (weightKind f.weighted
+            (weights.getD (List.replicate rows.length 1))) (typedEdges ltInt rows
+            (weights.getD (List.replicate rows.length 1)) f) ax).nCol = ax.n := by
+          simp only [sqMatrix]
+          constructor <;> (split <;> simp [directed2undirected, apply_ite])
+        obtain ⟨x, hx, hxn⟩ := axisOf_int_minimal _ _ _ _ hax
+        obtain ⟨e, he, hxe⟩ := List.mem_flatMap.mp hx
+        refine ⟨(by rw [hN.1, hN.2]), e.1, (hkeys _).mp (List.mem_map.mpr ⟨e, he, rfl⟩), ?_⟩
+        rw [hN.1]
+        simp only [List.mem_cons, List.not_mem_nil, or_false] at hxe
+        rcases hxe with rfl | rfl
+        · exact Or.inl (by simpa using hxn)
+        · exact Or.inr (by simpa using hxn)
+
 /-- **names_roundtrip.** For a named graph the names number the identifiers one-to-one: no identifier is listed
     twice, every identifier of the edge list has an index inside the matrix whose name is that identifier
     (rows: sources, columns: targets; all nodes when not bipartite), and every name is an identifier of the list. -/
@@ -328,6 +384,109 @@ theorem unweighted_binary [DecidableEq α] (f : Flags) (hw : f.weighted = false)
   split
   · exact key _
   · exact key _
+
+/-! ## from_edge_list, from_adjacency_list: reduction to from_edge_array -/
+
+/-- all tuples have the arity of the first one, and the weights are numbers -/
+def WellFormedTuples (edges : List EdgeTuple) : Prop :=
+  edges ≠ [] ∧ (∀ e ∈ edges, e.2.2 ≠ .text) ∧ (hasWeights edges = true → ∀ e ∈ edges, e.2.2 ≠ .absent)
+
+/-- **from_edge_list is from_edge_array on the typed array.** For a non-empty list of tuples of one arity with numeric
+    weights, `from_edge_list` is `from_edge_array` applied to the array numpy builds (`classify`: an integer
+    array when every identifier is an int or every identifier reads as an integer, else the array of their
+    strings) and to the weights — so `edge_array_entry_*` and `names_roundtrip` describe its result, the names
+    being the integers, resp. the strings, of the identifiers. -/
+theorem edge_list_typed (parse : String → Option Int) (edges : List EdgeTuple) (f : Flags)
+    (hwf : WellFormedTuples edges) :
+    fromEdgeList parse edges f =
+      match classify parse (edges.map fun e => (e.1, e.2.1)) with
+      | .inl rows => liftNames .int (fromEdgeArray ltInt (some id) rows (tupleWeights edges) f)
+      | .inr rows => liftNames .str (fromEdgeArray ltStr none rows (tupleWeights edges) f) := by
+  obtain ⟨hne, htext, habs⟩ := hwf
+  unfold fromEdgeList fromEdgeListWith fromEdgeArray
+  have h1 : (hasWeights edges && edges.any fun e => decide (e.2.2 = WField.absent)) = false := by
+    cases hw : hasWeights edges with
+    | false => rfl
+    | true =>
+      simp only [Bool.true_and]
+      rw [List.any_eq_false]
+      intro e he
+      simp [habs hw e he]
+  have h2 : (edges.isEmpty && f.bipartite) = false := by
+    cases edges with
+    | nil => exact absurd rfl hne
+    | cons _ _ => rfl
+  have h3 : (hasWeights edges && edges.any fun e => decide (e.2.2 = WField.text)) = false := by
+    have : (edges.any fun e => decide (e.2.2 = WField.text)) = false := by
+      rw [List.any_eq_false]
+      intro e he
+      simp [htext e he]
+    rw [this, Bool.and_false]
+  simp only [h1, h2, h3, Bool.false_eq_true, if_false]
+  cases classify parse (List.map (fun e => (e.fst, e.snd.fst)) edges) <;> rfl
+
+/-- what numpy's dtype decision returns: an integer array made of the identifiers themselves when they all are
+    Python ints; otherwise the array of their strings, read as integers when every one of them parses -/
+theorem classify_cases (parse : String → Option Int) (rows : List (Ident × Ident)) :
+    (classify parse rows = .inl (rows.map fun r => (r.1.intVal, r.2.intVal)) ∧
+      ∀ r ∈ rows, r.1.isInt = true ∧ r.2.isInt = true) ∨
+    (classify parse rows = .inl (rows.map fun r => ((parse r.1.toStr).getD 0, (parse r.2.toStr).getD 0)) ∧
+      ∀ r ∈ rows, (parse r.1.toStr).isSome = true ∧ (parse r.2.toStr).isSome = true) ∨
+    (classify parse rows = .inr (rows.map fun r => (r.1.toStr, r.2.toStr)) ∧
+      ∃ r ∈ rows, (parse r.1.toStr).isSome = false ∨ (parse r.2.toStr).isSome = false) := by
+  unfold classify
+  by_cases h1 : rows.all (fun r => r.1.isInt && r.2.isInt) = true
+  · left
+    simp only [h1, if_true, true_and]
+    intro r hr
+    rw [List.all_eq_true] at h1
+    simpa using h1 r hr
+  · right
+    simp only [h1, Bool.false_eq_true, if_false]
+    by_cases h2 : (rows.map fun r => (r.1.toStr, r.2.toStr)).all
+        (fun r => (parse r.1).isSome && (parse r.2).isSome) = true
+    · left
+      simp only [h2, if_true, List.map_map]
+      refine ⟨rfl, ?_⟩
+      intro r hr
+      rw [List.all_eq_true] at h2
+      simpa using h2 _ (List.mem_map.mpr ⟨r, hr, rfl⟩)
+    · right
+      simp only [h2, Bool.false_eq_true, if_false, true_and]
+      have h2' : ¬ ∀ x ∈ rows.map (fun r => (r.1.toStr, r.2.toStr)), ((parse x.1).isSome && (parse x.2).isSome) = true := by
+        rwa [List.all_eq_true] at h2
+      apply Classical.byContradiction
+      intro hcon
+      apply h2'
+      intro x hx
+      obtain ⟨r, hr, rfl⟩ := List.mem_map.mp hx
+      cases ha : (parse r.1.toStr).isSome <;> cases hb : (parse r.2.toStr).isSome <;>
+        first | rfl | exact absurd ⟨r, hr, by simp [ha, hb]⟩ hcon
+
+/-- `liftNames` keeps the matrix and the shape of the answer and maps the names -/
+theorem liftNames_ok (hmap : α → Ident) (x : Except Ingest.PyErr (Graph α)) (g : Graph Ident)
+    (h : liftNames hmap x = .ok g) :
+    ∃ g0, x = .ok g0 ∧ g.matrix = g0.matrix ∧ g.matrixOnly = g0.matrixOnly ∧ g.bipartite = g0.bipartite ∧
+      g.names = g0.names.map (·.map hmap) ∧ g.namesRow = g0.namesRow.map (·.map hmap) ∧
+      g.namesCol = g0.namesCol.map (·.map hmap) := by
+  cases x with
+  | error e => simp [liftNames] at h
+  | ok g0 =>
+    simp only [liftNames, Except.ok.injEq] at h
+    subst h
+    exact ⟨g0, rfl, rfl, rfl, rfl, rfl, rfl, rfl⟩
+
+/-- `from_adjacency_list` is `from_edge_list` on the pairs (node, neighbour), in order -/
+theorem adjacency_list_as_edges (parse : String → Option Int) (adj : List (List Ident)) (f : Flags) :
+    fromAdjacencyList parse adj f
+      = fromEdgeList parse (((List.range adj.length).zip adj).flatMap fun r => r.2.map fun j => (.int r.1, j, .absent)) f := by
+  unfold fromAdjacencyList adjacencyEdges
+  simp [List.flatMap_map]
+
+example : WellFormedTuples [(.str "a", .int 1, .num 2), (.int 1, .str "b", .num (1/2))] := by
+  refine ⟨by simp, ?_, ?_⟩
+  · intro e he; simp at he; rcases he with rfl | rfl <;> simp
+  · intro _ e he; simp at he; rcases he with rfl | rfl <;> simp
 
 /-! ## ★ csv_as_rows -/
 
